@@ -1053,6 +1053,8 @@ def run_cond(spec, rec):
                     dead = True
                     if v:
                         rec.flush()
+                    if any(x['kind'] in CONFIRM_ALONE for x in rec.violations):
+                        viol = MAX_VIOL_PER_SPEC     # bounded-wait verdicts are slow: one is enough
                     break
         finally:
             sess.close(kill=dead)
